@@ -13,7 +13,7 @@ IDX_DTYPES = ["int32", "int64", "uint32", "uint64"]
 # operations that are defined (and must terminate) on networks with loops
 LOOP_SAFE = {"rank", "isvalid", "nnodes", "idxs_pit", "n_upstream", "mask", "idxs_seq", "order_cells", "repair_loops",
              "to_array", "upstream_area", "accuflux", "stream_order", "basins", "downstream", "upstream_sum", "dump_load",
-             "area", "bounds", "extent", "index_xy", "set_transform", "fillnodata", "stream_distance"}
+             "area", "bounds", "extent", "index_xy", "set_transform", "fillnodata", "stream_distance", "wide_raster_to_array"}
 
 
 # ---------------------------------------------------------------------------------------------
@@ -38,9 +38,16 @@ def ds_to_d8(ds, shape):
 def gen_world(rng, tier="quick", cls=None, min_cells=4):
     """JSON-able description of a network object + a pool of fields"""
     cls = cls or rng.choice(["raster", "raster", "raster", "vector"])
+    latlon = glob = False
     if cls == "raster":
+        latlon = rng.random() < 0.3
+        # geographic rasters that span the whole globe in longitude (width exactly 360 degrees, as global
+        # hydrography / CaMa-Flood maps have): xres = 360 / ncol; mostly with ncol not a power of two
+        glob = latlon and rng.random() < 0.5
         while True:
             shape = gen_shape(rng, max_cells=42 if tier == "quick" else 120, max_side=8 if tier == "quick" else 12)
+            if glob and shape[1] & (shape[1] - 1) == 0 and rng.random() < 0.8:
+                continue
             if shape[0] * shape[1] >= min_cells:
                 break
         ds = gen_dem_net(rng, shape, p_nodata=rng.choice([0.0, 0.1, 0.25]))
@@ -66,12 +73,15 @@ def gen_world(rng, tier="quick", cls=None, min_cells=4):
         v = [i for i in range(n) if ds[i] != n]
         ds[v[-1]] = v[-1]
     res = rng.choice([(1, -1), (1, -1), (3, -4), (2, -2), (0.5, -0.25), (4, 3)])
-    latlon = cls == "raster" and rng.random() < 0.25
     if latlon:
         res = rng.choice([(1, -1), (0.5, -0.5), (2, -1)])
     north = rng.choice([0, 40, -10]) if latlon else rng.choice([0, 100])
+    west = rng.choice([0, 10])
+    if glob:
+        res = (360.0 / shape[1], res[1])
+        west = rng.choice([-180, -180, 0])
     w = {"cls": cls, "ds": ds, "shape": list(shape), "dtype": "int32",
-         "transform": [res[0], 0, rng.choice([0, 10]), 0, res[1], north], "latlon": latlon,
+         "transform": [res[0], 0, west, 0, res[1], north], "latlon": latlon,
          "cache": rng.random() < 0.8, "loops": loops, "noncontig": rng.choice([None, None, None, None, "strided", "fortran", "transposed"])}
     valid = [i for i in range(n) if ds[i] != n]
     # distinct upstream areas (no exact ties): accumulate distinct local areas
@@ -196,6 +206,21 @@ def feats_canon(feats):
 # the operations
 # ---------------------------------------------------------------------------------------------
 OPS = {}
+
+
+class OracleMismatch(Exception):
+    """raised by an operation caller whose result is fixed by the documentation and differs from the caller's own
+    brute-force oracle. Not a ValueError / IndexError: C13 reports it as a spec failure of the call, C07 / C16 see
+    an execution mode / index dtype that raises where the others return."""
+
+
+def _raised(fn):
+    """result of fn(), or the canonical marker of a documented exception class (compared between execution modes /
+    index dtypes like any other result)"""
+    try:
+        return fn()
+    except (ValueError, IndexError) as e:
+        return "raised " + type(e).__name__
 
 
 def op(name, classes=("raster", "vector"), group="misc", index_free=False, variants=1):
@@ -404,6 +429,93 @@ def _():
             lambda W, a: W.flw.to_array(a["ftype"]))
 
 
+_D8_CODE = {(0, 0): 0, (0, 1): 1, (1, 1): 2, (1, 0): 4, (1, -1): 8, (0, -1): 16, (-1, -1): 32, (-1, 0): 64, (-1, 1): 128}
+_LDD_CODE = {(-1, -1): 7, (-1, 0): 8, (-1, 1): 9, (0, -1): 4, (0, 0): 5, (0, 1): 6, (1, -1): 1, (1, 0): 2, (1, 1): 3}
+# link lengths whose row / column offset is congruent to -1, 0, 1 modulo 2^8 (the width of the local direction codes)
+_WRAP_K = [255, 256, 257, 511, 512, 513]
+_PLAIN_K = [1, 1, 2, 3, 126, 127, 128, 129, 130, 254, 258, 300]
+
+
+def longlink_net(a):
+    """network with non-local links, as NEXTXY rasters (CaMa-Flood) have them: `lines` parallel lines of `len`
+    cells along the rows (along='col': shape lines x len) or the columns (shape len x lines); every cell drains to
+    the next cell of its line in direction `sign`, the last one is a pit; ONE cell (line `line`, `pos0` cells from
+    the upstream end) drains `k` cells ahead into line `line + other`; optionally the upstream end cells are
+    nodata. Returns ds (n = missing) and the shape."""
+    L, m, k, sgn = a["len"], a["lines"], a["k"], a["sign"]
+    shape = (m, L) if a["along"] == "col" else (L, m)
+    ncol = shape[1]
+    n = L * m
+
+    def idx(line, pos):
+        return line * ncol + pos if a["along"] == "col" else pos * ncol + line
+
+    def at(q):   # q cells from the upstream end
+        return q if sgn > 0 else L - 1 - q
+    ds = [n] * n
+    for line in range(m):
+        for q in range(L):
+            if q == 0 and a["nodata"]:
+                continue
+            ds[idx(line, at(q))] = idx(line, at(min(q + 1, L - 1)))
+    ds[idx(a["line"], at(a["pos0"]))] = idx(a["line"] + a["other"], at(a["pos0"] + k))
+    return ds, shape
+
+
+def longlink_expect(ds, shape, ftype):
+    """documented result of to_array(ftype), by brute force: the raster of local direction codes, ValueError
+    when a link leaves the 3 x 3 neighbourhood (d8 / ldd); one-based next column / row (nextxy)"""
+    ncol = shape[1]
+    n = len(ds)
+    if ftype == "nextxy":
+        nx = [-9999 if d == n else (-9 if d == i else d % ncol + 1) for i, d in enumerate(ds)]
+        ny = [-9999 if d == n else (-9 if d == i else d // ncol + 1) for i, d in enumerate(ds)]
+        return ["arr", "int32", [2] + list(shape), nx + ny]
+    code, mv = (_D8_CODE, 247) if ftype == "d8" else (_LDD_CODE, 255)
+    vals = []
+    for i, d in enumerate(ds):
+        if d == n:
+            vals.append(mv)
+            continue
+        dd = code.get((d // ncol - i // ncol, d % ncol - i % ncol))
+        if dd is None:
+            return "raised ValueError"
+        vals.append(dd)
+    return ["arr", "uint8", list(shape), vals]
+
+
+@op("wide_raster_to_array", classes=R, group="convert")
+def _():
+    """to_array of a network the operation builds itself (independent of the world; only the index dtype and the
+    cache flag are the world's): rasters with a side of 4 .. 560 cells and one link spanning k rows / columns"""
+    def gen(rng, w):
+        k = rng.choice(_WRAP_K) if rng.random() < 0.5 else rng.choice(_PLAIN_K)
+        m = rng.randint(1, 3)
+        line = rng.randrange(m)
+        other = rng.choice([o for o in (-1, 0, 1) if 0 <= line + o < m])
+        L = k + rng.randint(3, 45)
+        fts = ["d8", "ldd", "nextxy", None]
+        rng.shuffle(fts)
+        return {"k": k, "len": L, "lines": m, "line": line, "other": other, "along": rng.choice(["col", "row"]),
+                "sign": rng.choice([1, -1]), "pos0": rng.randint(1, L - 1 - k), "nodata": rng.random() < 0.4,
+                "ftypes": fts[:rng.randint(1, 2)]}
+
+    def call(W, a):
+        from pyflwdir.pyflwdir import FlwdirRaster
+        ds, shape = longlink_net(a)
+        flw = FlwdirRaster(ds_to_np(ds, W.dtype), shape, "nextxy", cache=W.w["cache"])
+        out = []
+        for ft in a["ftypes"]:
+            got = _raised(lambda: flw.to_array(ft))
+            want = longlink_expect(ds, shape, ft or "nextxy")
+            if (got if isinstance(got, str) else canon(got)) != want:
+                raise OracleMismatch(f"to_array({ft!r}) of a {shape[0]} x {shape[1]} NEXTXY network with a link spanning "
+                                     f"{a['k']} {a['along']}s: expected {str(want)[:60]}, got {str(canon(got))[:60]}")
+            out.append(got)
+        return tuple(out)
+    return gen, call
+
+
 @op("from_array", classes=R, group="convert")
 def _():
     def call(W, a):
@@ -426,12 +538,88 @@ def _():
             lambda W, a: (W.flw.set_transform(tuple(a["t"]), a["latlon"]), W.flw.area, W.flw.bounds)[1:])
 
 
-@op("index_xy", classes=R, group="coords")
+def _pow2(v):
+    import math
+    return v != 0 and math.frexp(abs(v))[0] == 0.5
+
+
+def exact_grid(t):
+    """both resolutions are powers of two (and the origin a small dyadic number): the transform, its inverse and
+    every cell edge are computed without rounding, so points exactly ON an edge can be judged exactly"""
+    return t.b == 0 and t.d == 0 and _pow2(t.a) and _pow2(t.e)
+
+
+def flipped(t, shape, flip):
+    """transform of the same extent with the x and / or the y axis reversed (its origin in another corner)"""
+    from affine import Affine
+    a, b, c, d, e, f = tuple(t)[:6]
+    if "x" in flip:
+        c, a = c + a * shape[1], -a
+    if "y" in flip:
+        f, e = f + e * shape[0], -e
+    return Affine(a, b, c, d, e, f)
+
+
+def cell_of(t, shape, x, y):
+    """brute force over all cells: linear index of the cell whose half-open box (closed towards the transform's
+    origin, the convention of floor(fractional row / col)) holds (x, y); None if no cell does"""
+    found = []
+    for r in range(shape[0]):
+        for c in range(shape[1]):
+            x0, x1, y0, y1 = t.c + t.a * c, t.c + t.a * (c + 1), t.f + t.e * r, t.f + t.e * (r + 1)
+            if (x0 <= x < x1 if t.a > 0 else x1 < x <= x0) and (y0 <= y < y1 if t.e > 0 else y1 < y <= y0):
+                found.append(r * shape[1] + c)
+    if len(found) > 1:
+        raise RuntimeError("harness: cells overlap")
+    return found[0] if found else None
+
+
+@op("index_xy", classes=R, group="coords", variants=2)
 def _():
+    """xy -> index round trip of cell centres, and index of points given in half cells (`pts`: [2 * col, 2 * row]):
+    cell centres, points exactly on interior cell edges / corners and on the two raster borders at the transform's
+    origin; on the object's own grid or on the same extent with reversed axes (`flip`). Edge points only where the
+    grid arithmetic is exact (`exact_grid`), cell centres otherwise."""
     def call(W, a):
-        xs, ys = W.flw.xy(np.array(a["idxs"]))
-        return xs, ys, W.flw.index(xs, ys)
-    return (lambda rng, w: {"idxs": [rng.randrange(len(w["ds"])) for _ in range(3)]}, call)
+        f = W.flw
+        if a.get("flip"):
+            from pyflwdir.pyflwdir import FlwdirRaster
+            f = FlwdirRaster(np.array(W.flw.idxs_ds).copy(), W.shape, W.flw.ftype, transform=flipped(W.transform, W.shape, a["flip"]),
+                             latlon=W.w["latlon"], cache=W.w["cache"])
+        t = f.transform
+        xs, ys = f.xy(np.array(a["idxs"]))
+        back = f.index(xs, ys)
+        if [int(v) for v in np.atleast_1d(back)] != list(a["idxs"]):
+            raise OracleMismatch(f"index(xy({a['idxs']})) = {np.asarray(back).tolist()} (cell centres, transform {tuple(t)[:6]})")
+        out = [xs, ys, back]
+        if a.get("pts"):
+            half = [(p[0], p[1]) if exact_grid(t) else (p[0] | 1, p[1] | 1) for p in a["pts"]]
+            px = np.array([t.c + t.a * (c2 / 2) for c2, _ in half], dtype=np.float64)
+            py = np.array([t.f + t.e * (r2 / 2) for _, r2 in half], dtype=np.float64)
+            got = f.index(px, py)
+            want = [cell_of(t, W.shape, float(x), float(y)) for x, y in zip(px, py)]
+            if [int(v) for v in np.atleast_1d(got)] != want or want != [(r2 // 2) * W.shape[1] + c2 // 2 for c2, r2 in half]:
+                raise OracleMismatch(f"index({px.tolist()}, {py.tolist()}) = {np.asarray(got).tolist()}, the cells whose half-open "
+                                     f"box holds the points are {want} (shape {W.shape}, transform {tuple(t)[:6]})")
+            out += [px, py, got]
+        return tuple(out)
+
+    def gen(rng, w):
+        nrow, ncol = w["shape"]
+        pts = []
+        for _ in range(rng.randint(0, 4)):
+            kind = rng.random()
+            c2, r2 = rng.randrange(2 * ncol), rng.randrange(2 * nrow)
+            if kind < 0.25:      # on the raster border at the origin (a corner of the raster with probability 1/4)
+                c2, r2 = (0, r2) if rng.random() < 0.5 else (c2, 0)
+                if rng.random() < 0.25:
+                    c2 = r2 = 0
+            elif kind < 0.6:     # on a cell edge (even coordinate), possibly a cell corner
+                c2, r2 = (c2 & ~1, r2) if rng.random() < 0.5 else (c2, r2 & ~1)
+            pts.append([c2, r2])
+        return {"idxs": [rng.randrange(len(w["ds"])) for _ in range(3)], "pts": pts,
+                "flip": rng.choice([None, None, "x", "y", "xy"])}
+    return gen, call
 
 
 @op("basins", classes=R, group="basins")
@@ -550,24 +738,26 @@ def _():
                             "own": rng.random() < 0.7, "r_ratio": rng.choice([None, None, 1.5, 1.0, 0.3])}, call)
 
 
-@op("ucat", classes=R, group="subgrid")
+@op("ucat", classes=R, group="subgrid", variants=2)
 def _():
     def call(W, a):
-        up = W.uparea_distinct()
+        # own = an upstream area raster of the caller; otherwise the default (uparea=None: the object's own
+        # upstream area) - the outlets then feed the unit catchment map / area / volume like any others
+        up = W.uparea_distinct() if a.get("own", True) else None
         idxs_out = W.flw.ucat_outlets(a["s"], uparea=up, method=a["method"])
         m, are = W.flw.ucat_area(idxs_out, unit=a["unit"])
         hand = W.flw.hand(W.arr("mask", bool), W.arr("elevf", np.float32))
         m2, vol = W.flw.ucat_volume(idxs_out, hand)
         return idxs_out, m, are, vol
     return (lambda rng, w: {"s": rng.choice([1, 2, 3]), "method": rng.choice(["eam_plus", "dmm"]),
-                            "unit": rng.choice(["cell", "m2", "km2"])}, call)
+                            "unit": rng.choice(["cell", "m2", "km2"]), "own": rng.random() < 0.5}, call)
 
 
 @op("subgrid_riv", classes=R, group="subgrid", variants=2)
 def _():
     def call(W, a):
         up = W.uparea_distinct()
-        idxs_out = W.flw.ucat_outlets(a["s"], uparea=up) if a["outs"] else None
+        idxs_out = W.flw.ucat_outlets(a["s"], uparea=up if a.get("own", True) else None, method=a.get("method", "eam_plus")) if a["outs"] else None
         if idxs_out is not None and a.get("drop"):
             # unit catchments without an outlet pixel (as ucat_outlets reports them for empty cells): missing value
             idxs_out = idxs_out.copy()
@@ -582,7 +772,8 @@ def _():
         rs = W.flw.subgrid_rivslp(idxs_out, W.arr("elevf", np.float64), length=a["length"], direction=a["sdir"],
                                   method=a["smethod"], mask=msk)
         return rl, ra, rm, rs
-    return (lambda rng, w: {"s": rng.choice([2, 3]), "outs": rng.random() < 0.8, "mask": rng.random() < 0.4,
+    return (lambda rng, w: {"s": rng.choice([1, 2, 2, 3, 3]), "own": rng.random() < 0.5, "method": rng.choice(["eam_plus", "dmm"]),
+                            "outs": rng.random() < 0.8, "mask": rng.random() < 0.4,
                             "drop": rng.choice([0, 0, 1, 2, 3, 5]), "weights": rng.random() < 0.4,
                             "direction": rng.choice(["up", "down"]), "unit": rng.choice(["cell", "m"]),
                             "length": rng.choice([2, 5, 1000]), "sdir": rng.choice(["both", "up", "down"]),
@@ -705,7 +896,7 @@ def _():
 MUTATING_OPS = {"order_cells", "add_pits", "repair_loops", "set_transform", "derived_objects"}
 _HEAVY = {"upscale", "ucat", "subgrid_riv", "from_dem", "fill_depressions_idxs_pit", "slope", "spread2d", "regions",
           "gis_utils", "conversion", "from_array", "k_path_snap", "k_distance_slope_spread", "k_subgrid_slope",
-          "subbasins_pfafstetter", "dem_dig_d4"}
+          "subbasins_pfafstetter", "dem_dig_d4", "wide_raster_to_array"}   # (the last one does not touch the object)
 
 
 class AdhocWorld(World):
@@ -760,6 +951,48 @@ def age(flw, rng, focus=(), k=None, loopfree=True, heavy=False):
 
 
 # ---- documented-error cases (C13): (name, call, expected exception class name) -----------------
+def border_cases(W):
+    """index / xy=... arguments with points exactly ON the two raster borders opposite the transform's origin (xmax /
+    ymin of a north-up raster; the corresponding borders of south-up and mirrored transforms) and on the far corner:
+    they lie in no cell (cells are half-open boxes, closed towards the origin) -> the documented IndexError.
+    Grids with exact arithmetic only (`exact_grid`): the object's own transform when it is one, and four orientations
+    of a dyadic transform drawn from the world."""
+    import random
+    from affine import Affine
+    from pyflwdir.pyflwdir import FlwdirRaster
+    rng = random.Random(sum(W.w["elev"]) * 131 + W.n)
+    nrow, ncol = W.shape
+    grids = []
+    if exact_grid(W.transform):
+        grids.append(("own transform", W.flw))
+    base = Affine(rng.choice([0.25, 0.5, 1, 2, 4]), 0, rng.choice([0, 10, -3.5]), 0, -rng.choice([0.25, 0.5, 1, 2, 4]), rng.choice([0, 50, -7.25]))
+    for flip, nm in (("", "north-up"), ("x", "north-up, x reversed"), ("y", "south-up"), ("xy", "south-up, x reversed")):
+        t = flipped(base, W.shape, flip)
+        grids.append((f"{nm} {tuple(t)[:6]}", FlwdirRaster(np.array(W.flw.idxs_ds).copy(), W.shape, "d8", transform=t, latlon=W.w["latlon"])))
+    cases = []
+    for nm, g in grids:
+        t = g.transform
+        if cell_of(t, W.shape, t.c, t.f) != 0:
+            raise RuntimeError("harness: origin corner is not in cell 0")
+        r, c = rng.randrange(nrow), rng.randrange(ncol)
+        xfar, yfar = t.c + t.a * ncol, t.f + t.e * nrow
+        xin, yin = t.c + t.a * (c + 0.5), t.f + t.e * (r + 0.5)
+        pts = {"far x border": (xfar, yin), "far y border": (xin, yfar), "far corner": (xfar, yfar),
+               "far x border, first row edge": (xfar, t.f), "far y border, first column edge": (t.c, yfar)}
+        for what, (x, y) in pts.items():
+            if cell_of(t, W.shape, x, y) is not None:
+                raise RuntimeError("harness: border point inside a cell")
+            cases.append((f"index(point on the {what}; {nm})", lambda g=g, x=x, y=y: g.index(np.array([x]), np.array([y])), "IndexError"))
+        cases.append((f"index(cell centre and a point on the far x border; {nm})",
+                      lambda g=g, xs=(xin, xfar), ys=(yin, yin): g.index(np.array(xs), np.array(ys)), "IndexError"))
+        cases.append((f"index(scalar point on the far y border; {nm})", lambda g=g, x=xin, y=yfar: g.index(x, y), "IndexError"))
+        y0 = t.f + t.e * 0.5   # first row: one cell further is the first cell of the next row
+        cases.append((f"snap(xy on the far x border, first row; {nm})", lambda g=g, x=xfar, y=y0: g.snap(xy=(np.array([x]), np.array([y]))), "IndexError"))
+        cases.append((f"path(xy on the far x border, first row; {nm})", lambda g=g, x=xfar, y=y0: g.path(xy=(np.array([x]), np.array([y]))), "IndexError"))
+        cases.append((f"basins(xy on the far y border; {nm})", lambda g=g, x=xin, y=yfar: g.basins(xy=(np.array([x]), np.array([y]))), "IndexError"))
+    return cases
+
+
 def error_cases(W):
     import pyflwdir
     from pyflwdir import dem, gis_utils as g
@@ -772,6 +1005,7 @@ def error_cases(W):
         ("fillnodata(direction='x')", lambda: f.fillnodata(W.arr("holes", np.int64), -9999, direction="x"), "ValueError"),
         ("accuflux(wrong size)", lambda: f.accuflux(np.ones(n + 1)), "ValueError"),
         ("path(direction='x')", lambda: f.path(idxs=np.array([W.w["valid"][0]]), direction="x"), "ValueError"),
+        ("river_depth(zs without rivdst, no rivslp)", lambda: f.river_depth(W.arr("area_distinct", np.float64), W.arr("elev", np.float64) + 1, zs=W.arr("elevf", np.float64)), "ValueError"),
         ("river_depth(no slope information)", lambda: f.river_depth(W.arr("area_distinct", np.float64), W.arr("elev", np.float64) + 1), "ValueError"),
         ("river_depth(gvf without zs/rivdst)", lambda: f.river_depth(W.arr("area_distinct", np.float64), W.arr("elev", np.float64) + 1, rivslp=W.arr("elevf", np.float64) / 1000 + 1e-4, method="gvf"), "ValueError"),
         ("river_depth(method='x')", lambda: f.river_depth(W.arr("area_distinct", np.float64), W.arr("elev", np.float64) + 1, method="x"), "ValueError"),
@@ -815,6 +1049,7 @@ def error_cases(W):
             ("region_slices(1-D)", lambda: __import__("pyflwdir").regions.region_slices(np.ones(4, dtype=np.int32)), "ValueError"),
             ("region_dissolve(no labels)", lambda: __import__("pyflwdir").regions.region_dissolve(f.basins().astype(np.int32)), "ValueError"),
         ]
+        cases += border_cases(W)
     return cases
 
 
